@@ -182,20 +182,24 @@ HasCycle(c) ==
 ---------------------------------------------------------------------------
 (* events                                                                  *)
 EvImport(m, n)        == [e |-> "import", m |-> NormMod(m), n |-> n]
-EvCall(f, a, kw, h)   == [e |-> "call", f |-> Canon(f, h),
+\* nw: the callee is reached through X.__new__(X, ...) (NEWOBJ / NEWOBJ_EX) rather than called as X(...) (REDUCE, OBJ, INST:
+\* for a callee that is not a class the unpickler calls it, and f.__new__(f) would NOT be a call of f)
+EvCallN(f, a, kw, h, nw) == [e |-> "call", f |-> Canon(f, h),
                           a  |-> [i \in DOMAIN a  |-> Canon(a[i], h)],
-                          kw |-> [i \in DOMAIN kw |-> <<kw[i][1], Canon(kw[i][2], h)>>]]
+                          kw |-> [i \in DOMAIN kw |-> <<kw[i][1], Canon(kw[i][2], h)>>], nw |-> nw]
+EvCall(f, a, kw, h)   == EvCallN(f, a, kw, h, FALSE)
 EvSetState(o, st, h)  == [e |-> "setstate", o |-> Canon(o, h), s |-> Canon(st, h)]
 EvPersId(pid, h)      == [e |-> "persid", pid |-> Canon(pid, h)]
 \* a stand-in object used as a container: obj.append / obj.extend, obj[k] = v
 EvAppend(o, items, h) == [e |-> "append", o |-> Canon(o, h), a |-> [i \in DOMAIN items |-> Canon(items[i], h)]]
 EvSetItem(o, k, v, h) == [e |-> "setitem", o |-> Canon(o, h), k |-> Canon(k, h), v |-> Canon(v, h)]
 
+SameCall(x, y) == /\ SameVal(x.f, y.f) /\ SameSeq(x.a, y.a) /\ Len(x.kw) = Len(y.kw)
+                  /\ \A i \in DOMAIN x.kw : x.kw[i][1] = y.kw[i][1] /\ SameVal(x.kw[i][2], y.kw[i][2])
 SameEv(x, y) ==
   /\ x.e = y.e
   /\ CASE x.e = "import"   -> x.m = y.m /\ x.n = y.n
-       [] x.e = "call"     -> /\ SameVal(x.f, y.f) /\ SameSeq(x.a, y.a) /\ Len(x.kw) = Len(y.kw)
-                              /\ \A i \in DOMAIN x.kw : x.kw[i][1] = y.kw[i][1] /\ SameVal(x.kw[i][2], y.kw[i][2])
+       [] x.e = "call"     -> SameCall(x, y) /\ x.nw = y.nw
        [] x.e = "setstate" -> SameVal(x.o, y.o) /\ SameVal(x.s, y.s)
        [] x.e = "persid"   -> SameVal(x.pid, y.pid)
        [] x.e = "append"   -> SameVal(x.o, y.o) /\ SameSeq(x.a, y.a)
@@ -230,10 +234,11 @@ Eff(op, s) ==
       nid   == Len(hp) + 1
       push(x)        == [s EXCEPT !.stack = Append(stk, x)]
       alloc(o, base) == [s EXCEPT !.heap = Append(hp, o), !.stack = Append(base, Ref(nid))]
-      call(f, a, kw, base, pre) ==
-          [s EXCEPT !.ev    = pre \o <<EvCall(f, a, kw, hp)>>,
+      callN(f, a, kw, base, pre, nw) ==
+          [s EXCEPT !.ev    = pre \o <<EvCallN(f, a, kw, hp, nw)>>,
                     !.heap  = Append(hp, [k |-> "obj", f |-> f, a |-> a, kw |-> kw, s |-> <<>>, li |-> <<>>, di |-> <<>>]),
                     !.stack = Append(base, Ref(nid))]
+      call(f, a, kw, base, pre) == callN(f, a, kw, base, pre, FALSE)
       top  == stk[n]
       top2 == stk[n - 1]
       top3 == stk[n - 2]
@@ -311,10 +316,10 @@ Eff(op, s) ==
                           ELSE call(top2, top.e, <<>>, SubSeq(stk, 1, n - 2), s.ev)
     [] op.o = "NEWOBJ" -> IF fr < 2 THEN Err(s, "vm")
                           ELSE IF ~Callable(hp, top2) \/ top.t # "tup" THEN Err(s, "typing")
-                          ELSE call(top2, top.e, <<>>, SubSeq(stk, 1, n - 2), s.ev)
+                          ELSE callN(top2, top.e, <<>>, SubSeq(stk, 1, n - 2), s.ev, TRUE)
     [] op.o = "NEWOBJ_EX" -> IF fr < 3 THEN Err(s, "vm")
                              ELSE IF ~Callable(hp, top3) \/ top2.t # "tup" \/ ~KwOK(hp, top) THEN Err(s, "typing")
-                             ELSE call(top3, top2.e, KwOf(hp, top), SubSeq(stk, 1, n - 3), s.ev)
+                             ELSE callN(top3, top2.e, KwOf(hp, top), SubSeq(stk, 1, n - 3), s.ev, TRUE)
     [] op.o = "OBJ"   -> IF mi = 0 \/ fr < 1 THEN Err(s, "vm")
                          ELSE IF ~Callable(hp, above[1]) THEN Err(s, "typing")
                          ELSE call(above[1], Tail(above), <<>>, below, s.ev)
@@ -360,17 +365,19 @@ IsBuiltinImport(e) == e.e = "import" /\ e.m = "builtins"
 \* as the callee of a call, or as part of the value)
 ImportCovered(evA, x) == IsBuiltinImport(x) \/ \E j \in DOMAIN evA : evA[j].e = "import" /\ evA[j].m = x.m
 CountEv(evs, x)    == Cardinality({j \in DOMAIN evs : SameEv(evs[j], x)})
-Covers(evA, evB) ==
-  \A i \in DOMAIN evB :
-     IF evB[i].e = "import"
-     THEN ImportCovered(evA, evB[i])
-     ELSE CountEv(evA, evB[i]) >= CountEv(evB, evB[i])
+\* calls: a decompiled X(...) stands for both what the machine calls and what it allocates through X.__new__ (the program
+\* over-approximates), but a decompiled X.__new__(X, ...) only stands for an allocation - it does not call X
+CountCall(evs, x, nw) == Cardinality({j \in DOMAIN evs : evs[j].e = "call" /\ SameCall(evs[j], x) /\ evs[j].nw = nw})
+CallCovered(evA, evB, x) ==
+  /\ CountCall(evA, x, FALSE) >= CountCall(evB, x, FALSE)
+  /\ CountCall(evA, x, FALSE) + CountCall(evA, x, TRUE) >= CountCall(evB, x, FALSE) + CountCall(evB, x, TRUE)
+EvCovered(evA, evB, x) == IF x.e = "import" THEN ImportCovered(evA, x)
+                          ELSE IF x.e = "call" THEN CallCovered(evA, evB, x)
+                          ELSE CountEv(evA, x) >= CountEv(evB, x)
+Covers(evA, evB) == \A i \in DOMAIN evB : EvCovered(evA, evB, evB[i])
 \* first uncovered event (0 = none)
 FirstUncovered(evA, evB) ==
-  LET bad == {i \in DOMAIN evB :
-                IF evB[i].e = "import"
-                THEN ~ImportCovered(evA, evB[i])
-                ELSE CountEv(evA, evB[i]) < CountEv(evB, evB[i])}
+  LET bad == {i \in DOMAIN evB : ~EvCovered(evA, evB, evB[i])}
   IN IF bad = {} THEN 0 ELSE CHOOSE i \in bad : \A j \in bad : i <= j
 
 =============================================================================
